@@ -268,6 +268,10 @@ func init() {
 		fr.i.sch.yield(nil, "vYield")
 		return nil
 	}
+	h["verifYield"] = func(fr *frame, args []value) value {
+		fr.i.sch.yield(nil, "verifYield")
+		return nil
+	}
 	h["vJoin"] = func(fr *frame, args []value) value {
 		fr.i.sch.join()
 		return nil
